@@ -18,9 +18,9 @@ type algCase struct {
 	Op       string `json:"op"`
 	A        []int  `json:"a"`
 	B        []int  `json:"b"`
-	Alias    bool   `json:"alias,omitempty"` // pass A for both operands
+	Alias    bool   `json:"alias,omitempty"`      // pass A for both operands
 	CollB    string `json:"collator_b,omitempty"` // ordering of the second operand when it differs (same equivalence)
-	Probe    int    `json:"probe"`           // value used for the independence mutation
+	Probe    int    `json:"probe"`                // value used for the independence mutation
 }
 
 func subsetCodes(mask, n int) []int {
